@@ -766,3 +766,230 @@ def scorer_phase(tier, base_seed):
                 "property": "C13", "kind": "shipped_ruleset:" + r["problem"][0], "key": None,
                 "detail": dict(r["problem"][1], ruleset=r["name"])}, "case": None})
     return out
+
+
+# ---------------------------------------------------------------------------
+# C04 / C14 on the shipped rulesets
+
+def _expansion_job(name, flags, n_pops, max_level_strings=40000):
+    """every pre-terminal of the first n_pops: the lines written == the reference cartesian expansion (multiset), the
+    count returned == the lines written; Markov pre-terminals == RefOmen's strings of that level (levels up to
+    max_level_strings strings)"""
+    from lib_guesser.priority_queue import PcfgQueue
+    sb, sc_ = flags.get("skip_brute", False), flags.get("skip_case", False)
+    ref = ref_for(name, sb, sc_)
+    out = {"name": name, "flags": flags, "problem": None, "preterminals": 0, "guesses": 0, "markov_levels": 0, "markov_strings": 0}
+    rec = guesser.LineRecorder()
+    with guesser.streams(rec, guesser.Sink()):
+        pcfg = guesser.load(shipped_dir(name), sb, sc_, name=name)
+        q = PcfgQueue(pcfg)
+        for _ in range(n_pops):
+            item = q.next()
+            if item is None:
+                break
+            pt = tuple(tuple(x) for x in item["pt"])
+            is_m = len(pt) == 1 and pt[0][0] == "M"
+            if is_m:
+                grp = ref.vars["M"][pt[0][1]]
+                if len(grp["values"]) != 1:
+                    continue
+                level = int(grp["values"][0])
+                try:
+                    want = _omen_strings(name, level) if level <= 3 else None
+                except OverflowError:
+                    want = None
+                if want is None or len(want) > max_level_strings:
+                    continue
+            else:
+                size = 1
+                for var, gi in pt:
+                    size *= len(ref.vars[var][gi]["values"])
+                if size > 200000:
+                    continue
+                want = ref.expand(pt)
+            rec.take()
+            ret = pcfg.create_guesses(item["pt"])
+            lines = guesser.split_lines(rec.take())
+            out["preterminals"] += 1
+            out["guesses"] += len(lines)
+            if is_m:
+                out["markov_levels"] += 1
+                out["markov_strings"] += len(lines)
+            if ret != len(lines):
+                out["problem"] = ("count_mismatch", {"pt": repr(pt)[:200], "returned": ret, "lines": len(lines)})
+                return out
+            if collections.Counter(lines) != collections.Counter(want):
+                miss = collections.Counter(want) - collections.Counter(lines)
+                extra = collections.Counter(lines) - collections.Counter(want)
+                out["problem"] = ("omen_level_mismatch" if is_m else "expansion_mismatch",
+                                  {"pt": repr(pt)[:200], "n_want": len(want), "n_got": len(lines),
+                                   "missing": sorted(miss.elements())[:5], "extra": sorted(extra.elements())[:5]})
+                return out
+    return out
+
+
+def expansion_phase(tier, base_seed):
+    names = available()
+    out = {"shipped_ruleset_expansion_runs": 0, "shipped_ruleset_preterminals_expanded": 0, "shipped_ruleset_guesses": 0,
+           "shipped_ruleset_markov_levels": 0, "shipped_ruleset_markov_strings": 0, "violations": []}
+    if not names:
+        return out
+    if tier == "quick":
+        jobs = [(names[base_seed % len(names)], FLAG_SETS[(base_seed // 2) % 2 * 2], 4000, 5000)]
+    else:
+        jobs = [(nm, fl, 40000, 40000) for nm in names for fl in (FLAG_SETS[0], FLAG_SETS[2])]
+    for r in _fan_out(_expansion_job, jobs):
+        out["shipped_ruleset_expansion_runs"] += 1
+        out["shipped_ruleset_preterminals_expanded"] += r["preterminals"]
+        out["shipped_ruleset_guesses"] += r["guesses"]
+        out["shipped_ruleset_markov_levels"] += r["markov_levels"]
+        out["shipped_ruleset_markov_strings"] += r["markov_strings"]
+        if r["problem"]:
+            out["violations"].append({"seed": base_seed, "tape": [], "violation": {
+                "property": "C04", "kind": "shipped_ruleset:" + r["problem"][0], "key": None,
+                "detail": dict(r["problem"][1], ruleset=r["name"], flags=r["flags"])}, "case": None})
+    return out
+
+
+def restriction_phase(tier, base_seed):
+    """C14 on the shipped rulesets: the flagged runs against the reference restriction (RefRuleset with the flags:
+    Markov structure removed and the rest divided by 1-P(M); every mask list collapsed to one all-lower mask of
+    probability 1), prefix judged as in C01/C02"""
+    names = available()
+    out = {"shipped_ruleset_restricted_runs": 0, "shipped_ruleset_restricted_pops": 0, "violations": []}
+    if not names:
+        return out
+    n = 15000 if tier == "quick" else 200000
+    if tier == "quick":
+        jobs = [(names[base_seed % len(names)], FLAG_SETS[1 + base_seed % 3], n)]
+    else:
+        jobs = [(nm, fl, n) for nm in names for fl in FLAG_SETS[1:]]
+    for r in _fan_out(_prefix_job, jobs):
+        if r.get("void"):
+            continue
+        out["shipped_ruleset_restricted_runs"] += 1
+        out["shipped_ruleset_restricted_pops"] += r["pops"]
+        pb = r["problem"]
+        if pb:
+            out["violations"].append({"seed": base_seed, "tape": [], "violation": {
+                "property": "C14", "kind": "shipped_ruleset:restricted_run_" + pb[1], "key": None,
+                "detail": dict(pb[2], ruleset=r["name"], flags=r["flags"], pops=r["pops"])}, "case": None})
+    return out
+
+
+# ---------------------------------------------------------------------------
+# C10 / C11 on the OMEN model of the shipped Default ruleset
+
+def _omen_model_job(prop, seed, levels=(1, 2, 3)):
+    """C10: levels 1..3 of Default's trained model (365 / 4 308 / 32 901 strings) from the real generator, each with a
+    fresh cache and then in a drawn order over one shared Optimizer of a drawn size, against RefOmen.
+    C11: the scorer's level of every string of levels 1..2, of a sample of level 3 and of mutated strings against
+    RefOmen.level and against the level at which the generator emitted it."""
+    from .refmodel import RefOmen
+    from .tape import Tape
+    from .checks import omen as omen_check
+    from lib_guesser.omen.markov_cracker import MarkovCracker
+    from lib_guesser.omen.optimizer import Optimizer
+    t = Tape(seed=seed)
+    odir = os.path.join(shipped_dir("Default"), "Omen")
+    out = {"problem": None, "levels": 0, "strings": 0, "scored": 0}
+    g = omen_check.load_omen(odir)
+    if g is None:
+        out["problem"] = ("guesser_cannot_load_omen", {})
+        return out
+    ro = RefOmen(odir)
+    want = {lvl: collections.Counter(_omen_strings("Default", lvl)) for lvl in levels}
+    emitted_at = {}
+
+    def enumerate_level(lvl, opt):
+        mc = MarkovCracker(g, lvl, opt)
+        got = []
+        while len(got) <= 2 * sum(want[lvl].values()) + 5:
+            s = mc.next_guess()
+            if s is None:
+                return got, True
+            got.append(s)
+        return got, False
+
+    plans = [("fresh cache", [(lvl, None) for lvl in levels])]
+    knob = t.draw(7)
+    plans.append(("shared cache size %d" % knob, [(lvl, "shared") for lvl in t.shuffle(list(levels) + list(levels[:-1]))]))
+    for what, plan in plans:
+        shared = Optimizer(max_length=knob)
+        for lvl, mode in plan:
+            opt = shared if mode == "shared" else Optimizer(max_length=4)
+            try:
+                got, done = enumerate_level(lvl, opt)
+            except Exception:
+                import traceback
+                out["problem"] = ("raised", {"level": lvl, "configuration": what, "exception": traceback.format_exc()[-900:]})
+                return out
+            gc = collections.Counter(got)
+            out["levels"] += 1
+            out["strings"] += len(got)
+            if not done or gc != want[lvl]:
+                out["problem"] = ("level_enumeration_wrong" if mode is None else "level_enumeration_depends_on_cache_history", {
+                    "level": lvl, "configuration": what, "expected": sum(want[lvl].values()), "emitted": len(got),
+                    "missing": sorted((want[lvl] - gc).elements())[:5], "extra": sorted((gc - want[lvl]).elements())[:5]})
+                return out
+            for s in gc:
+                emitted_at.setdefault(s, lvl)
+    if prop == "C10":
+        return out
+    from lib_scorer.omen_scorer import OmenScorer
+    with guesser.streams():
+        sc = OmenScorer(shipped_dir("Default"), ro.encoding if hasattr(ro, "encoding") else "utf-8", t.choice([9, 9, 3, 18, 1]))
+    pool = sorted(want[1]) + sorted(want[2]) + [s for i, s in enumerate(sorted(want.get(3, ()))) if i % 7 == seed % 7]
+    cands = list(pool)
+    for _ in range(1500):
+        s = pool[t.draw(len(pool))]
+        k = t.draw(5)
+        if k == 0 and len(s) > 1:
+            s = s[:-1]
+        elif k == 1:
+            s = s + t.choice("aeio1s")
+        elif k == 2:
+            i = t.draw(len(s))
+            s = s[:i] + t.choice("aeio1sZ#") + s[i + 1:]
+        elif k == 3:
+            s = s[::-1]
+        else:
+            s = s.capitalize()
+        cands.append(s)
+    for s in dict.fromkeys(cands):
+        try:
+            lv = sc.parse(s)
+        except Exception:
+            import traceback
+            out["problem"] = ("scorer_raised", {"string": s, "exception": traceback.format_exc()[-600:]})
+            return out
+        out["scored"] += 1
+        rl = ro.level(s)
+        if lv != rl and not (lv < 0 and rl < 0):
+            out["problem"] = ("scorer_level_differs_from_model", {"string": s, "scorer": lv, "reference": rl})
+            return out
+        if s in emitted_at and emitted_at[s] != lv:
+            out["problem"] = ("guesser_level_differs", {"string": s, "scorer": lv, "guesser_emitted_at": emitted_at[s]})
+            return out
+        if 1 <= lv <= max(levels) and s not in emitted_at:
+            out["problem"] = ("guesser_never_emits_string", {"string": s, "level": lv})
+            return out
+    return out
+
+
+def omen_model_phase(prop, tier, base_seed):
+    out = {"shipped_omen_model_runs": 0, "shipped_omen_levels_enumerated": 0, "shipped_omen_strings": 0,
+           "shipped_omen_strings_scored": 0, "violations": []}
+    if "Default" not in available():
+        return out
+    jobs = [(prop, base_seed * 9973 + 5 + i, (1, 2) if tier == "quick" else (1, 2, 3)) for i in range(1 if tier == "quick" else 8)]
+    for r in _fan_out(_omen_model_job, jobs):
+        out["shipped_omen_model_runs"] += 1
+        out["shipped_omen_levels_enumerated"] += r["levels"]
+        out["shipped_omen_strings"] += r["strings"]
+        out["shipped_omen_strings_scored"] += r["scored"]
+        if r["problem"]:
+            out["violations"].append({"seed": base_seed, "tape": [], "violation": {
+                "property": prop, "kind": "shipped_ruleset:" + r["problem"][0], "key": None,
+                "detail": dict(r["problem"][1], ruleset="Default")}, "case": None})
+    return out
